@@ -8,7 +8,7 @@ from harness.common import Ctx, Driver, compare_with_model, load_corpus, shrink_
 
 ID = "C10"
 SIGS = {"attempt-while-connected", "two-connectors", "attempt-after-shutdown", "waiter-wrong-error", "waiter-unbounded", "retries-ended", "busy-loop", "backoff-too-short", "backoff-too-long", "address-excluded", "immediate-retry-same-address",
-        "attempt-after-close", "update-raised"}
+        "attempt-after-close", "update-raised", "backoff-not-growing"}
 RULE = ("fault sequences x schedules on the simulated network (virtual time, unpatched IpPairing/SecureHomeKitConnection against a scaffold accessory doing a real pair-verify): "
         "(A) EVERY sequence of pair-verify outcome classes {success, wrong pairing id, authentication error, other error, no answer} up to length 3 (quick) / 5 (thorough) "
         "x 1..3 advertised addresses x TCP outcomes {refused, timeout, connects to k-th address}, concrete accessory behaviour per class drawn from "
@@ -31,14 +31,24 @@ RULE = ("fault sequences x schedules on the simulated network (virtual time, unp
         "record cache) on an address-aware network (a connect succeeds only to an address the accessory really has): {Added, Updated} x {goodbye 0.1 / 0.4 s later - inside the debounce - , 0.6 s later, none} x {session up and dropped, never reached} "
         "x {away 0.2 / 5 / 100 s} x {back on the same addresses, another address, an added address, partly moved} x {Added, Updated} - every combination (thorough) or a sample of 150 (quick) - and random mDNS lives (flapping, moves, power cuts, callers, "
         "requests, closes); `address-excluded` is judged against what the HARNESS announced through the browser (every announced address is tried within longest-list+1 rounds begun more than 1 s after the announcement). "
-        "non-trivial = distinct (addresses, history, record)")
+        "(H) callers that KEEP ASKING while every attempt fails - an accessory that stays unreachable for minutes (every connect refused / unanswered, every pair-verify spoilt, or reachable nowhere) x 8..70 callers arriving one per period "
+        "(0.25 s .. 61 s: faster than, as fast as, slower than the caller's bounded 10 s wait) through _ensure_connected with / without their own time-out, get_characteristics or any other public request, some cancelled half a period later, "
+        "after a lead time of 0 .. 300 s (back-off young .. at its cap), now and then a zeroconf update in between; judged - like EVERY history of every stream - by the LOWER bound of the delay, across events, from the network's own record "
+        "of the attempts: unless zeroconf reported the device, something was closed, a session that had come up was lost or the accessory may have answered with an authentication error in between, an attempt that does not just move "
+        "on to other addresses starts no earlier than 0.75 s after the failed attempt before it came to rest (`backoff-too-short`) and no earlier than the delay before it in the same streak of failures, up to the 60 s cap "
+        "(`backoff-not-growing`) - a caller asking for the connection is no reason to retry early; "
+        "(I) a sample of the close sweeps of C11 (a close / shutdown / cancel / drop / update in EVERY loop iteration of a connection set-up, measured per phase). "
+        "non-trivial = distinct (addresses, history, record, subscriptions)")
 TRUSTED = ["(stream G) the zeroconf record cache is a real DNSCache filled and emptied by the harness the way the mDNS listener would; AsyncServiceInfo.async_request is replaced by a cache lookup (no multicast query is ever sent); "
            "an unscripted TCP connect succeeds iff one of its targets is an address the accessory has at that moment",
            "(stream F) the scaffold accessory serves a small accessory database and answers / keeps / releases application requests as scripted",
            "harness/simnet.py virtual-time loop and in-memory transport follow the asyncio contracts the code relies on", "harness/acc.py scaffold accessory (pair-verify via `cryptography`)",
            "aiohappyeyeballs.start_connection / loop.create_connection are replaced by the simulated network", "async_interrupt wakes the sleeping connector within the same virtual instant",
            "the task factory of the simulated loop sees every task the library creates; connector tasks are recognised by their coroutine (`_reconnect`), as in the census at quiescence"]
-ASSUMPTIONS = ["(streams F, G) application requests and browser callbacks have no model event: such a history is tied to the model up to the first of them and judged by the implementation-level oracles after it",
+ASSUMPTIONS = ["(lower bound of the delay) a failed attempt 'came to rest' at the last instant at which the simulated network saw it do anything (its TCP connect ended, the controller wrote on its connection, its connection was lost); "
+               "the delay is counted from there to the start of the next attempt; a zeroconf update that arrived at any time during the round of attempts before it excuses an early retry; after a close, the loss of an established session, "
+               "a session that came up, or an exchange the accessory may have ended with an authentication error (its scripted behaviour is an authentication error TLV, or it was honest and no session came up) the streak starts anew",
+               "(streams F, G) application requests and browser callbacks have no model event: such a history is tied to the model up to the first of them and judged by the implementation-level oracles after it",
                "(stream G) an announcement made through the service browser counts as known to the pairing one second after the callback (the resolve debounce is 0.5 s); within that second a reconnect it hastens, "
                "or a re-opening of a pairing that was closed, is correct in either order; a list handed to the pairing directly (`d`) replaces the browser's as the reference",
                "(stream F) the first attempt after the loss of a session that had come up (request time-out, caller's own time-out with its request on the wire) is not a back-off retry",
@@ -70,6 +80,8 @@ def cases_for(ctx):
     for h, e, rec in rcsim.gen_record_histories(rng, ctx.budget(40, 1500)):
         cases.append((h, e, "record", {"record": rec}))
     cases += session_cases(ctx, ctx.budget(100, 4000), ctx.budget(150, None))
+    cases += [(h, e, kind) for h, e, kind in rcsim.gen_polling_histories(rng, ctx.budget(150, 4000))]
+    cases += rcsim.gen_close_sweeps(rng, sample=ctx.budget(150, 1500))
     return cases
 
 
@@ -93,18 +105,29 @@ def run_cases(ctx: Ctx, driver: Driver, pid, sigs, cases):
         hosts, events, kind = tup[:3]
         extra = tup[3] if len(tup) > 3 else {}
         record = extra.get("record")
+        subs = extra.get("subs")  # the subscriptions to restore in every new session (None = the default, one characteristic)
         family = extra.get("family") or ("v6" if (i % 5 == 4 and kind != "corpus") else "v4")
         seed = extra["seed"] if extra.get("seed") is not None else ctx.seed * 1000003 + i
-        sim = rcsim.run_scenario(hosts, events, seed=seed, family=family, record=record)
+        sim = rcsim.run_scenario(hosts, events, seed=seed, family=family, record=record, subs=subs)
         ctx.dist["family:" + family] += 1
         ctx.evaluations += 1
-        ctx.nontrivial.add((tuple(hosts), tuple(events)) if record is None else (tuple(hosts), tuple(events), record))
+        ctx.nontrivial.add(((tuple(hosts), tuple(events)) if record is None else (tuple(hosts), tuple(events), record)) + (() if subs is None else (tuple(map(tuple, subs)),)))
         ctx.dist["kind:" + kind] += 1
         ctx.dist["hosts:%d" % len(hosts)] += 1
         if record is not None:
             ctx.dist["record:" + record] += 1
         if extra.get("phase"):
             ctx.dist["composite-in-phase:" + extra["phase"]] += 1
+        if subs is not None:
+            ctx.dist["subscriptions-to-restore:%d-on-%d-accessories" % (len(subs), len({a for a, _ in subs}))] += 1
+        if extra.get("sweep"):
+            sw = extra["sweep"]
+            ctx.dist["sweep-phase:%s(window=%d)" % (sw["phase"], sw["window"])] += 1
+            ctx.dist["sweep-action:" + sw["action"]] += 1
+            ctx.dist["sweep-offset:%d" % sw["offset"]] += 1
+        if kind.startswith("polling"):
+            ctx.dist["polling:callers"] += sum(1 for e in events if e[0] in "egr" and e[1] == ":")
+            ctx.dist["polling:zeroconf-updates-in-between"] += sum(1 for e in events if e == "s" or e.startswith("d:"))
         for e in events:
             reqs = [x.split(":")[2] for x in e.split("+") if x.startswith("r:")]
             if reqs:
@@ -130,6 +153,8 @@ def run_cases(ctx: Ctx, driver: Driver, pid, sigs, cases):
         case = {"stream": "supervisor", "hosts": hosts, "events": events, "kind": kind, "seed": seed, "family": family}
         if record is not None:
             case["record"] = record
+        if subs is not None:
+            case["subs"] = subs
         seen = set()
         for sig, text in sim.problems:
             if sig not in sigs:
@@ -139,7 +164,7 @@ def run_cases(ctx: Ctx, driver: Driver, pid, sigs, cases):
                 vcase = dict(case)
                 if sig not in minimized and len(minimized) < 4:
                     # shrink the first history of each kind to a minimal one that still fails the same way
-                    small = shrink_list(events, lambda evs, sig=sig: any(s2 == sig for s2, _ in rcsim.run_scenario(hosts, evs, seed=vcase["seed"], family=vcase["family"], record=record).problems))
+                    small = shrink_list(events, lambda evs, sig=sig: any(s2 == sig for s2, _ in rcsim.run_scenario(hosts, evs, seed=vcase["seed"], family=vcase["family"], record=record, subs=subs).problems))
                     minimized[sig] = small
                     vcase["minimized_events"] = small
                     text = text + f" [minimal history: {' '.join(small)}]"
@@ -170,7 +195,7 @@ def run(ctx: Ctx, driver: Driver):
 
 def replay_tuple(case):
     """the case as run_cases takes it: same addresses, history, pairing-record variant, address family and accessory key seed"""
-    return (case["hosts"], case["events"], "replay", {"record": case.get("record"), "family": case.get("family"), "seed": case.get("seed")})
+    return (case["hosts"], case["events"], "replay", {"record": case.get("record"), "family": case.get("family"), "seed": case.get("seed"), "subs": case.get("subs")})
 
 
 def replay(ctx: Ctx, driver: Driver, case):
@@ -185,4 +210,6 @@ def search(ctx: Ctx, driver: Driver, broken):
     cases = [(h, e, "search") for h, e in (rcsim.gen_random(rng, long_run=(i % 5 == 0)) for i in range(ctx.budget(3000, 30000)))]
     cases += composite_cases(ctx, ctx.budget(1500, 6000), ctx.budget(1500, 6000), ctx.budget(1000, 6000))
     cases += session_cases(ctx, ctx.budget(1500, 6000), None)
+    cases += [(h, e, kind) for h, e, kind in rcsim.gen_polling_histories(rng, ctx.budget(600, 6000))]
+    cases += rcsim.gen_close_sweeps(rng, sample=None)
     run_cases(ctx, driver, ID, SIGS, cases)
